@@ -372,6 +372,7 @@ pub fn run(tier: Tier) {
             None
         }
     });
+    crate::history::differential(&mut ctx, "history_two_keys_round_trips", &["D512", "d512", "D1024", "d1024"], 2, &|_op, digest| { let _ = digest; if !(digest.contains("equal=true") && digest.contains("reenc=true") && digest.contains("verifies=true")) { Some("serialisation round trip or sign-after-decode failed".to_string()) } else { None } });
     crate::e5::run_part(&mut ctx, "decode");
     ctx.sample(json!({"variant":512,"seed":"LE64(0)||0^24","sizes":[1281,897,666]}));
     ctx.assume("the per-field loops of the key codecs are data-independent, so varying one field at a time covers every representable key up to which other fields surround it");
